@@ -382,7 +382,9 @@ func (c *ncase) judge(env *engine.ExecutionPayloadEnvelope, attrs *engine.Payloa
 	ctx := context.Background()
 	pl := env.ExecutionPayload
 	wit := func(extra map[string]any) map[string]any {
-		m := map[string]any{"block_number": pl.Number, "txs": len(pl.Transactions), "gas_used": pl.GasUsed, "state_root": pl.StateRoot.Hex(), "block_hash": pl.BlockHash.Hex()}
+		m := map[string]any{"block_number": pl.Number, "txs": len(pl.Transactions), "gas_used": pl.GasUsed, "state_root": pl.StateRoot.Hex(), "block_hash": pl.BlockHash.Hex(),
+			"timestamp": pl.Timestamp, "rule_set": w.config.LatestFork(pl.Timestamp).String(), "excess_blob_gas": pl.ExcessBlobGas, "blob_gas_used": pl.BlobGasUsed,
+			"parent_timestamp": parent.Time, "parent_rule_set": w.config.LatestFork(parent.Time).String(), "parent_excess_blob_gas": parent.ExcessBlobGas, "parent_blob_gas_used": parent.BlobGasUsed, "parent_base_fee": parent.BaseFee}
 		for k, v := range extra {
 			m[k] = v
 		}
